@@ -97,6 +97,12 @@ def mutator_cases(prog):
         L, v = _sym_int(ip, 'L0'), ip.declare('v')
         return W.fresh_domain(ip, Num(L), dk=Num(v)), (L, N.PI / (v * L))
     cases.append(('__init__(length,dk)', init_dk, cls.find_method('__init__')))
+
+    def init_both(ip):
+        # both spacings given: refused, or -- on whatever path the constructor accepts them -- the Domain of (length, dr)
+        L, d, v = _sym_int(ip, 'L0'), ip.declare('d0'), ip.declare('v')
+        return W.fresh_domain(ip, Num(L), dr=Num(d), dk=Num(v)), (L, d)
+    cases.append(('__init__(length,dr,dk)', init_both, cls.find_method('__init__')))
     for sname in sorted(cls.setters):
         def mk(sname=sname):
             def f(ip):
@@ -139,12 +145,22 @@ def rule_mutators(ctx, rule='R07.i'):
             w['want_beh'] = _behaviour(ip, twin)
             return ip, w
         try:
-            worlds = explore(run)
+            worlds = explore(run, keep_raised=True)
         except (Unsupported, Raised) as e:
             ctx.undecided(rule, construct, str(e), finfo.loc())
             continue
         n += 1
         bad, missing = [], []
+        refused = [w for dec, ip, w in worlds if ip is None]
+        worlds = [x for x in worlds if x[1] is not None]
+        if refused and not worlds:
+            if name == '__init__(length,dr,dk)':
+                ctx.holds(rule, construct, 'refused (%s): no Domain with two independently given spacings exists' % refused[0].exc,
+                          finfo.loc(), nontrivial=False)
+            else:
+                ctx.violation(rule, construct, 'raises', '%s raises %s for every input' % (name, refused[0].exc), finfo.loc())
+            continue
+        got_pub, want = {}, {}
         for dec, ip, w in worlds:
             missing = [a for a in ('dr', 'dk', 'length', 'r', 'k') if a not in w['want_pub']]
             if missing:
@@ -172,7 +188,7 @@ def rule_mutators(ctx, rule='R07.i'):
             ctx.holds(rule, construct, 'all %d grid attributes, the documented read interface and both transforms equal those of '
                       'Domain(length\', dr\') -- invariant dr*dk*length=pi and derived arrays re-established' % len(want), finfo.loc(),
                       sample={'mutator': name, 'dk': N.show(got_pub['dk']), 'r': P.show(got_pub['r'])})
-    ctx.floor(rule, n, 4, 'Domain mutators (__init__ via dk, setters dr/dk/length)')
+    ctx.floor(rule, n, 5, 'Domain mutators (__init__ via dk, via both spacings, setters dr/dk/length)')
 
 
 def rule_two_domains(ctx, rule='R07.j'):
@@ -325,8 +341,9 @@ def rule_integer_spacing(ctx, rule='R08.i'):
     for which in ('dr', 'dk'):
         construct = '%s::__init__(length,%s:int)' % (DOMAIN, which)
 
-        def build(inty, which=which):
+        def build(inty, which=which, preset=()):
             ip = _new_ip(ctx.prog)
+            ip.preset = list(preset)
             L, d = _sym_int(ip, 'L'), ip.declare('d')
             nl, nd = Num(L), Num(d)
             nl.inty = True
@@ -340,21 +357,38 @@ def rule_integer_spacing(ctx, rule='R08.i'):
                 out[nm] = ip.term_of(res)[0]
             for nm in ('r', 'k'):
                 out[nm] = W.attr_term(ip, ip.get_attr(dom, nm, None))
+            # then the spacing is re-assigned to a float through the setter (same length): the Domain of the integer start
+            # must end up where the Domain of the float start does
+            ip.set_attr(dom, which, Num(ip.declare('d2')), None)
+            for nm, sym in (('to_fourier', 'f'), ('to_real', 'F')):
+                res = ip.call(ip.find_method(dom, nm), [Arr(N.sym(sym), 'array', ip)], {})
+                out[nm + ' after %s was re-assigned to a float' % which] = ip.term_of(res)[0]
+            for nm in ('r', 'k'):
+                out[nm + ' after %s was re-assigned to a float' % which] = W.attr_term(ip, ip.get_attr(dom, nm, None))
             return ip, out
         try:
-            ipf, flt = build(False)
-            ipi, itg = build(True)
+            # data-dependent branches of the setters (`if value == self._dr: return`) are explored; the float and the
+            # integer start take the same decisions, path by path
+            wf = explore(lambda preset: build(False, preset=preset))
+            wi = explore(lambda preset: build(True, preset=preset))
+            if [[(c.key(), b_) for c, b_, _ in d_] for d_, _, _ in wf] != [[(c.key(), b_) for c, b_, _ in d_] for d_, _, _ in wi]:
+                raise Unsupported('the integer-spaced and the float-spaced construction branch differently')
         except (Unsupported, Raised) as e:
             ctx.undecided(rule, construct, str(e), m.loc())
             continue
         n += 1
-        bad = []
-        for nm in sorted(flt):
+        bad, bad_names = [], set()
+        for (dec_f, ipf, flt), (dec_i, ipi, itg) in zip(wf, wi):
+          for nm in sorted(flt):
             if itg[nm] is None or flt[nm] is None or P.compare(itg[nm], flt[nm])[0]:
-                ev = [e_ for e_ in ipi.events if e_['kind'] == 'int-reciprocal']
+                ev = [e_ for e_ in ipi.events if e_['kind'] in ('int-reciprocal', 'int-store')]
+                if nm in bad_names:
+                    continue
+                bad_names.add(nm)
                 bad.append('%s is %s for an integer %s but %s for a float one%s' % (
                     nm, P.show(itg[nm])[:120], which, P.show(flt[nm])[:120],
-                    (' (np.reciprocal of an integer array at %s is the integer reciprocal)' % ev[0]['loc']) if ev else ''))
+                    (' (%s at %s)' % ('np.reciprocal of an integer array is the integer reciprocal' if ev[0]['kind'] == 'int-reciprocal'
+                                      else 'a slice store into the integer grid array truncates', ev[0]['loc'])) if ev else ''))
         if bad:
             ctx.violation(rule, construct, 'integer-spacing', '; '.join(bad[:2]), m.loc())
         else:
@@ -560,6 +594,79 @@ def rule_matrixarray_transforms(ctx, rule='R07.m'):
                 ctx.holds(rule, construct, 'all unordered pairs := %s(pair) via the symmetric setter; flag -> %s after the loop'
                           % (scalar, target), m.loc(), key='transform',
                           sample={'method': nm, 'data_after': P.show(data.t)})
+
+
+def rule_matrixarray_transforms_concrete(ctx, rule='R07.c'):
+    """The MatrixArray transforms on real MatrixArrays of concrete rank 1, 3 and 2, one after the other on ONE Domain (the
+    symbolic rule R07.m runs a single symbolic pair of a generic rank): every pair function [i,j] becomes the scalar transform
+    of what was stored there, the flag flips, a second transform in the same direction is refused with ValueError before
+    anything is written -- for every rank, whatever rank the Domain saw before."""
+    cls = ctx.prog.cls(DOMAIN)
+    ma_cls = ctx.prog.cls('pyPRISM.core.MatrixArray::MatrixArray')
+    n = 0
+    for nm, scalar, src, target in (('MatrixArray_to_fourier', 'to_fourier', 'Real', 'Fourier'),
+                                    ('MatrixArray_to_real', 'to_real', 'Fourier', 'Real')):
+        m = cls.find_method(nm)
+        if m is None:
+            continue
+        construct = '%s::%s' % (DOMAIN, nm)
+
+        def run(preset, nm=nm, scalar=scalar, src=src, target=target):
+            ip = Interp(ctx.prog)
+            ip.preset = list(preset)
+            ip.natives[('shape', '__getitem__')] = ip.lib.shape_getitem
+            L, d = _sym_int(ip, 'L'), ip.declare('dr')
+            dom = W.fresh_domain(ip, Num(L), dr=Num(d))
+            bad = []
+            for rank in (1, 3, 2):
+                ma = ip.construct(ma_cls, [], {'length': Num(L), 'rank': Num(N.NF.const(rank)), 'space': W.SPACE[src]})
+                data = ma.attrs.get('data')
+                if not isinstance(data, Arr):
+                    raise Unsupported('MatrixArray.data is %r' % (data,))
+                data.cells = {}
+                want = {}
+                for i in range(rank):
+                    for j in range(i, rank):
+                        sym = 'm%d_%d%d' % (rank, i, j)
+                        ip.declare(sym, 'curve')
+                        data.cells[(i, j)] = data.cells[(j, i)] = N.sym(sym)
+                        ref = ip.call(ip.find_method(dom, scalar), [Arr(N.sym(sym), 'pair', ip)], {})
+                        want[(i, j)] = want[(j, i)] = ip.term_of(ref)[0]
+                ip.call(ip.find_method(dom, nm), [ma], {})
+                data = ma.attrs.get('data')
+                for (i, j), w_ in sorted(want.items()):
+                    got = ip.read_cell(data, i, j) if isinstance(data, Arr) else None
+                    if got is None or P.compare(got, w_)[0]:
+                        bad.append('rank %d (after ranks %s on the same Domain): pair function [%d,%d] is %s, expected %s(stored '
+                                   'pair function)' % (rank, [r_ for r_ in (1, 3, 2)][:(1, 3, 2).index(rank)] or 'none', i, j,
+                                                       P.show(got)[:70] if got is not None else 'missing', scalar))
+                        break
+                sp = ma.attrs.get('space')
+                if getattr(sp, 'v', None) != ('Space', target):
+                    bad.append('rank %d: flag is %r afterwards' % (rank, getattr(sp, 'v', sp)))
+                before = dict(data.cells) if isinstance(data, Arr) and data.cells else {}
+                try:
+                    ip.call(ip.find_method(dom, nm), [ma], {})
+                    bad.append('rank %d: an array already in %s space is transformed again instead of being refused' % (rank, target))
+                except Raised as e:
+                    if e.exc != 'ValueError':
+                        bad.append('rank %d: the refusal raises %s, not ValueError' % (rank, e.exc))
+                    elif isinstance(data, Arr) and dict(data.cells or {}) != before:
+                        bad.append('rank %d: the array is modified before the refusal' % rank)
+            return ip, bad
+        try:
+            bad = []
+            for dec, ip_, b_ in explore(run):
+                bad += b_
+        except (Unsupported, Raised) as e:
+            ctx.undecided(rule, construct, str(e), m.loc())
+            continue
+        n += 1
+        if bad:
+            ctx.violation(rule, construct, 'concrete-ranks', '; '.join(sorted(set(bad))[:3]), m.loc())
+        else:
+            ctx.holds(rule, construct, 'ranks 1, 3, 2 in turn on one Domain: every pair transformed, flag flipped, second call refused', m.loc())
+    ctx.floor(rule, n, 2, 'MatrixArray transform directions executed on concrete ranks')
 
 
 def rule_grid_products(ctx, rule='R10.g'):
